@@ -41,6 +41,9 @@ class Sink:
     def update_after(self, rule, oFile, lUpdates, bUpdateMap, ctx):
         pass
 
+    def violation_added(self, rule, violation, accepted):
+        pass
+
     def nonrule_before(self, name, oFile):
         pass
 
@@ -68,7 +71,7 @@ class Instrument:
         inst = self
         real_fix = o.fix
         real_analyze = o.analyze
-        real_toi = o._get_tokens_of_interest
+        real_toi = getattr(o, "_get_tokens_of_interest", None)
 
         def fix(oFile, dFixOnly=None):
             inst.reach["fix"] += 1
@@ -99,9 +102,22 @@ class Instrument:
                 s.toi(o, oFile, "_get_tokens_of_interest", r)
             return r
 
+        real_add = o.add_violation
+
+        def add_violation(violation):
+            inst.reach["add_violation"] += 1
+            n = len(o.violations)
+            r = real_add(violation)
+            acc = len(o.violations) > n
+            for s in inst.sinks:
+                s.violation_added(o, violation, acc)
+            return r
+
+        o.add_violation = add_violation
         o.fix = fix
         o.analyze = analyze
-        o._get_tokens_of_interest = _get_tokens_of_interest
+        if real_toi is not None:
+            o._get_tokens_of_interest = _get_tokens_of_interest
 
     def rule_now(self):
         return self.stack[-1][1] if self.stack else None
